@@ -160,8 +160,19 @@ def resolve_unwindset(h, target, stubbing=False):
     text = f"$ {' '.join(cmd)}\n[rc={rc} {dt:.1f}s]\n{out[-3000:]}\n"
     import glob
     entries = {}
-    for f in glob.glob(os.path.join(target, "kani", "*", "debug", "build", "cao-verif", "*", "out",
-                                    "*.pretty_name_map.json")):
+    outdir = os.path.join(target, "kani", "*", "debug", "build", "cao-verif", "*", "out")
+    # loop ids of the linked goto binary: "<mangled function>.<n>"
+    loops = {}
+    if any(p.endswith("#*") for p, _ in want):
+        for f in glob.glob(os.path.join(outdir, "*.out")):
+            if f.endswith(".symtab.out"):
+                continue
+            rc2, out2, _ = sh(["cbmc", "--show-loops", f], timeout=600)
+            for ln in out2.splitlines():
+                m2 = re.match(r"^Loop (\S+)\.(\d+):", ln)
+                if m2:
+                    loops.setdefault(m2.group(1), set()).add(m2.group(2))
+    for f in glob.glob(os.path.join(outdir, "*.pretty_name_map.json")):
         try:
             m = json.load(open(f))
         except Exception:
@@ -175,8 +186,15 @@ def resolve_unwindset(h, target, stubbing=False):
                 if "#" in pat:
                     p, loop = pat.rsplit("#", 1)
                 if re.search(p, pretty):
-                    key = mangled if loop is None else f"{mangled}.{loop}"
-                    entries[key] = max(entries.get(key, 0), lim)
+                    if loop is None:
+                        keys = [mangled]
+                    elif loop == "*":
+                        keys = [f"{mangled}.{n}" for n in sorted(loops.get(mangled, []))]
+                    else:
+                        keys = [f"{mangled}.{loop}"]
+                    for key in keys:
+                        # several patterns may hit the same loop: the most specific (last) wins
+                        entries[key] = lim
     text += "unwindset: " + json.dumps(entries, indent=1) + "\n"
     if not entries:
         return [], text
@@ -342,6 +360,9 @@ def native_replay(name, vals, logf, watchdog=20):
     return res
 
 
+IGNORED_CHECK = re.compile(r"^NaN on (addition|subtraction|multiplication|division)")
+
+
 def is_unwind_label(lbl):
     return "unwinding assertion" in lbl or "recursion unwinding" in lbl.lower()
 
@@ -442,7 +463,17 @@ def main():
             else:
                 discharged += 1
         elif st == "FAILED":
-            labels = list(dict.fromkeys(r["failed"]))
+            # CBMC's float NaN checks are not Rust panics: producing NaN is a defined IEEE result
+            labels = [l for l in dict.fromkeys(r["failed"]) if not IGNORED_CHECK.match(l)]
+            if not labels:
+                if r["cover_total"] > 0 and r["cover_sat"] < r["cover_total"]:
+                    undecided.append((h["name"], "vacuous: cover witness unreachable"))
+                    entry["status"] = "VACUOUS"
+                else:
+                    discharged += 1
+                    entry["status"] = "SUCCESSFUL (ignoring CBMC NaN checks)"
+                samples.append(entry)
+                continue
             unknown = []
             for lbl in labels:
                 f = match_finding(findings, prop, h["name"], lbl)
